@@ -364,6 +364,7 @@ class Normaliser(object):
         self._inline_new_constants()
         self._fold_delegates()
         self._tail_loop_returns()
+        self._acquire_release_to_with()
         self._collect()
 
     def _tail_loop_returns(self):
@@ -398,6 +399,45 @@ class Normaliser(object):
                 loop.body = [R().visit(s_) for s_ in loop.body]
                 self.tail_returns += 1
                 self.inlined.append(('tail-loop return', fn.name, 'to-break'))
+
+    def _acquire_release_to_with(self):
+        """`L.acquire(); try: B finally: L.release()` is `with L: B` (the context manager protocol of locks); a local that only names the
+        lock (`lock = self._lock`) is replaced by what it names"""
+        def is_call(s_, attr):
+            return isinstance(s_, ast.Expr) and isinstance(s_.value, ast.Call) and isinstance(s_.value.func, ast.Attribute) and \
+                s_.value.func.attr == attr and not s_.value.args and not s_.value.keywords
+
+        def rewrite(stmts, fn):
+            out = []
+            i = 0
+            while i < len(stmts):
+                s_ = stmts[i]
+                nxt = stmts[i + 1] if i + 1 < len(stmts) else None
+                if is_call(s_, 'acquire') and isinstance(nxt, ast.Try) and not nxt.handlers and not nxt.orelse and len(nxt.finalbody) == 1 and \
+                        is_call(nxt.finalbody[0], 'release') and _same(s_.value.func.value, nxt.finalbody[0].value.func.value):
+                    lock = s_.value.func.value
+                    # alias defined by the statement before, used nowhere else
+                    if isinstance(lock, ast.Name) and out and isinstance(out[-1], ast.Assign) and len(out[-1].targets) == 1 and \
+                            isinstance(out[-1].targets[0], ast.Name) and out[-1].targets[0].id == lock.id and \
+                            isinstance(out[-1].value, ast.Attribute) and \
+                            sum(1 for n in ast.walk(fn) if isinstance(n, ast.Name) and n.id == lock.id) == 3:
+                        lock = out.pop().value
+                    out.append(ast.copy_location(ast.With(items=[ast.withitem(context_expr=lock, optional_vars=None)], body=rewrite(nxt.body, fn)), s_))
+                    self.inlined.append(('acquire/try/finally release', fn.name, 'to-with'))
+                    i += 2
+                    continue
+                for f in ('body', 'orelse', 'finalbody'):
+                    if isinstance(getattr(s_, f, None), list) and not isinstance(s_, (ast.FunctionDef, ast.ClassDef)):
+                        setattr(s_, f, rewrite(getattr(s_, f), fn))
+                for h in getattr(s_, 'handlers', []) or []:
+                    h.body = rewrite(h.body, fn)
+                out.append(s_)
+                i += 1
+            return out
+        for t in self.trees.values():
+            for fn in [n for n in ast.walk(t) if isinstance(n, ast.FunctionDef)]:
+                if any(is_call(s_, 'acquire') for s_ in ast.walk(fn)):
+                    fn.body = rewrite(fn.body, fn)
 
     def _collect(self):
         by_name = {}
